@@ -4,6 +4,10 @@ import json, os
 ROOT = os.path.dirname(os.path.dirname(os.path.abspath(__file__)))
 ALL = ["C%02d" % i for i in range(1, 20)]
 CHECKS = {
+ "C13": dict(cat="model_checking", ref="§4 C13",
+   technique="explicit-state BFS to a fixpoint over bus routing states, every transition a real Attach on a fresh real Bus (path replay), with per-state exhaustive read/write/EaDump obligations against an owner-map model",
+   text="The routing state of a 4-segment window (owner per 16-byte segment, 3 memories, 256 states per window position, 5 positions incl. address 0, a bank edge and the top of the address space) is searched to a fixpoint; every aligned Attach is a transition executed on the real bus, every misaligned variant must be rejected without changing routing, and in every reached state all byte reads/writes and EaDump for every start<=end are compared with the model.",
+   note="Assumes the bus treats segments uniformly apart from index arithmetic (why several window positions are used). Fixpoint over the stated alphabet, not over all 2^20 segments."),
  "C09": dict(cat="exploration", ref="§4 C09",
    technique="bounded-deviation exhaustive enumeration of header contents (all single-byte deviations, full product of the two version bytes, all position pairs over a boundary alphabet) on the real parser/serialiser against an independent layout table",
    text="Each enumerated 80-byte header is parsed by the real code, every exported field compared with an independent (address, width) layout table, the version rule checked, the header serialised and re-parsed, and the ROM-level ReadHeader/WriteHeader round trip compared byte for byte on whole images. The space is a stated union of products completely enumerated; the completeness argument (content-independent byte permutation) is recorded in the evidence.",
